@@ -12,3 +12,5 @@ pub fn verif_text() -> (s: String) { String::new() }
 
 pub assume_specification<Idx: Clone> [<std::ops::Range<Idx> as Clone>::clone] (x: &std::ops::Range<Idx>) -> (r: std::ops::Range<Idx>)
     ensures r == *x;
+pub assume_specification<T: Ord> [std::cmp::min] (a: T, b: T) -> (r: T)
+    ensures r == a || r == b;
